@@ -172,6 +172,64 @@ func c15RoundTrips(c *vfeng.Ctx) {
 	}
 }
 
+// ---- (a') users whose names differ only in letter case are different users in every store
+func c15CaseTwins(c *vfeng.Ctx) {
+	w := vfNewWorld(vfOpts{CertBackends: []string{"password"}, WebUIBackends: []string{"password"}, NoNormalize: true})
+	defer w.Close()
+	st := w.state
+	mk := func(tag string) *userProfile {
+		return &userProfile{U2fAuthData: map[int64]*u2fAuthData{}, TOTPAuthData: map[int64]*totpAuthData{}, DisplayName: tag}
+	}
+	names := []string{"Twin", "twin", "TWIN"}
+	pt := map[string]string{"part": "case-twins"}
+	fail := func(key, what string) { c.Violate("C15|case-twins|"+key, what, pt) }
+	for _, n := range names {
+		vfMust(st.SaveUserProfile(n, mk("profile of "+n)))
+		vfMust(st.UpsertSigned(n, 3, vclock.Now().Unix()+3600, "signed for "+n))
+	}
+	c.Eval(1)
+	check := func(where string) bool {
+		for _, n := range names {
+			p, ok, _, err := st.LoadUserProfile(n)
+			if err != nil || !ok || p.DisplayName != "profile of "+n {
+				got := "<none>"
+				if p != nil {
+					got = p.DisplayName
+				}
+				fail("profile-of-other-twin|"+where, fmt.Sprintf("profile saved for %q read back from the %s as %q (ok=%v err=%v)", n, where, got, ok, err))
+				return false
+			}
+			ok2, data, err := st.GetSigned(n, 3)
+			if err != nil || !ok2 || data != "signed for "+n {
+				fail("signed-record-of-other-twin|"+where, fmt.Sprintf("signed record of %q read back from the %s as %q (ok=%v err=%v)", n, where, data, ok2, err))
+				return false
+			}
+		}
+		users, _, err := st.GetUsers()
+		if err != nil || len(users) != len(names) {
+			fail("user-list|"+where, fmt.Sprintf("%d users saved, the %s lists %v (err=%v)", len(names), where, users, err))
+			return false
+		}
+		return true
+	}
+	if !check("primary") {
+		return
+	}
+	vfMust(copyDBIntoSQLite(st.db, st.cacheDB, "sqlite"))
+	w.setPrimaryOutage(true)
+	okc := check("cache")
+	w.setPrimaryOutage(false)
+	if !okc {
+		return
+	}
+	vfMust(st.DeleteUserProfile("twin"))
+	if p, ok, _, _ := st.LoadUserProfile("Twin"); !ok || p == nil || p.DisplayName != "profile of Twin" {
+		fail("delete-removes-other-twin", "deleting user \"twin\" removed or changed user \"Twin\"")
+		return
+	}
+	c.Class("case-twins|three users kept apart in primary and cache", pt)
+}
+
 // ---- (a'') a fault at every SQL operation of a profile save, a profile delete and
 // a signed-record upsert on the primary: "saved" must mean stored.  If the call
 // reports success the new content is read back; if it reports failure the store
@@ -632,7 +690,7 @@ func init() {
 	vfRegister(&vfeng.Check{
 		ID:    "C15",
 		Level: "fault_enumeration",
-		Rule:  "(a'') an error injected at EVERY SQL operation of SaveUserProfile (existing and new user), DeleteUserProfile, UpsertSigned and DeleteSigned on the primary: success reported => new content stored, failure => previous or new content; (a) every profile shape (empty, nil/empty maps, 1-3 U2F registrations with real attestation certificates, TOTP entries, pending registration/TOTP secret, bootstrap OTP, WebAuthn credential + session data, 10 kB display name) saved, read back from the primary, synchronised and read back from the cache during an outage; (b) BFS with canonical-state deduplication over {save/delete user, upsert/delete signed record, tick 97h, sync} for two users on the real storage functions, comparing cache and primary after every completed synchronisation; (c) for every synchronisation reached at history depth <= 3 (thorough 4): a fault (error, and crash = connection abort + reopen) injected at EVERY SQL operation of copyDBIntoSQLite on the source and on the destination connection - cache content must equal the previous or the complete new content; (d) every route x {GET,POST} with an admitted credential against a healthy twin, a twin whose primary is unreachable and a twin whose primary does not answer reads but takes writes (outage ending inside the request), and for authentication routes a twin whose primary refuses every operation at once with the production read timeout (virtual time advanced while the request waits); plus deployments with self-service bootstrap OTP: login of a user with/without devices via form and basic-auth in the three modes, with a recording mail sender (differential oracle)",
+		Rule:  "(a') three users whose names differ only in case: profiles, signed records, user list and deletion in the primary and, after a synchronisation, in the cache; (a'') an error injected at EVERY SQL operation of SaveUserProfile (existing and new user), DeleteUserProfile, UpsertSigned and DeleteSigned on the primary: success reported => new content stored, failure => previous or new content; (a) every profile shape (empty, nil/empty maps, 1-3 U2F registrations with real attestation certificates, TOTP entries, pending registration/TOTP secret, bootstrap OTP, WebAuthn credential + session data, 10 kB display name) saved, read back from the primary, synchronised and read back from the cache during an outage; (b) BFS with canonical-state deduplication over {save/delete user, upsert/delete signed record, tick 97h, sync} for two users on the real storage functions, comparing cache and primary after every completed synchronisation; (c) for every synchronisation reached at history depth <= 3 (thorough 4): a fault (error, and crash = connection abort + reopen) injected at EVERY SQL operation of copyDBIntoSQLite on the source and on the destination connection - cache content must equal the previous or the complete new content; (d) every route x {GET,POST} with an admitted credential against a healthy twin, a twin whose primary is unreachable and a twin whose primary does not answer reads but takes writes (outage ending inside the request), and for authentication routes a twin whose primary refuses every operation at once with the production read timeout (virtual time advanced while the request waits); plus deployments with self-service bootstrap OTP: login of a user with/without devices via form and basic-auth in the three modes, with a recording mail sender (differential oracle)",
 		Assumptions: []string{"only the sqlite flavour of the storage layer is executed (no PostgreSQL in the sandbox)", "a crash is modelled as loss of the connection's uncommitted work followed by reopening the files; sqlite's own atomic-commit machinery is trusted", "an outage is modelled as in the repository's own tests: the primary's read timeout has already elapsed (remoteDBQueryTimeout=0) and every statement on it fails"},
 		Bounds: func(tier string) map[string]interface{} {
 			d, fd := 4, 3
@@ -649,6 +707,7 @@ func init() {
 			}
 			if c.Shard == 0 {
 				c15RoundTrips(c)
+				c15CaseTwins(c)
 				c15WriteFaults(c)
 				c15Outage(c)
 				c15OutageSelfService(c)
@@ -673,6 +732,7 @@ func init() {
 			}
 			cc := &vfeng.Ctx{Res: &vfeng.Result{Classes: map[string]json.RawMessage{}, ClassCount: map[string]int64{}, Counters: map[string]int64{}, Sets: map[string][]string{}}}
 			c15RoundTrips(cc)
+			c15CaseTwins(cc)
 			c15WriteFaults(cc)
 			c15Outage(cc)
 			c15OutageSelfService(cc)
